@@ -165,6 +165,24 @@ type T struct{ erpc.CallCtx }
 // Call is the instrumented CALL handler.
 func (t *T) Call(arg *Arg) (*Res, *erpc.Status) { return CurApp.CallHandler(t.CallCtx, arg) }
 
+// BadRes is a result that no codec can marshal.
+type BadRes struct {
+	Tag string   `json:"tag"`
+	C   chan int `json:"c"`
+}
+
+// TB is a CALL controller whose handler returns OK with an unmarshalable result: route /tb/chan.
+type TB struct{ erpc.CallCtx }
+
+// Chan is the instrumented handler returning a result that cannot be packed.
+func (t *TB) Chan(arg *Arg) (*BadRes, *erpc.Status) {
+	_, st := CurApp.CallHandler(t.CallCtx, arg)
+	if st != nil {
+		return nil, st
+	}
+	return &BadRes{Tag: F(arg.Tag), C: make(chan int)}, nil
+}
+
 // U is the PUSH controller: route /u/push.
 type U struct{ erpc.PushCtx }
 
